@@ -279,8 +279,8 @@ theorem locScale_consistent (lp : ℝ → ℝ) (loc scale : ℝ) (h : 0 < scale)
   ext
   · rfl
   · simp only
-    have : (z * scale + loc - loc) / scale = z := by field_simp; ring
-    rw [this]; ring
+    -- whichever way the source orders `loc + scale * z`
+    simp only [add_sub_cancel_right, add_sub_cancel_left, mul_div_cancel_left₀ _ h.ne', mul_div_cancel_right₀ _ h.ne']; ring
 
 theorem logNormal_sample (μ σ z : ℝ) (h : 0 < σ) :
     (logNormal μ σ).sample z () = Real.exp (σ * z + μ) := by
@@ -303,8 +303,7 @@ theorem logNormal_consistent (μ σ : ℝ) (h : 0 < σ) : (logNormal μ σ).Cons
   ext
   · rfl
   · simp only
-    have : (z * σ + μ - μ) / σ = z := by field_simp; ring
-    rw [this]; ring
+    simp only [add_sub_cancel_right, add_sub_cancel_left, mul_div_cancel_left₀ _ h.ne', mul_div_cancel_right₀ _ h.ne']; ring
 
 theorem exponential_sample (lam z : ℝ) (h : 0 < lam) :
     (exponential lam).sample z () = z / lam := by
